@@ -626,6 +626,7 @@ func main() {
 	t1 := time.Now()
 	runFree(w, r.Fork(), nFree)
 	runStorms(w, r.Fork(), o.Count(8, 200))
+	runMulti(w, r.Fork(), o.Count(8, 200))
 	t2 := time.Now()
 	w.Extra["det_s"] = t1.Sub(t0).Seconds()
 	w.Extra["free_s"] = t2.Sub(t1).Seconds()
